@@ -102,7 +102,11 @@ def strategy(tier):
         # the event is dispatched once, then the others are registered and
         # the event is dispatched again
         'early': st.one_of(st.none(), st.lists(st.booleans(), min_size=6,
-                                               max_size=6))}).map(
+                                               max_size=6)),
+        # servers: the served namespaces are configured as a list (the
+        # judged namespace and one more, which has handlers of its own for
+        # the same event and a catch-all) instead of '*'
+        'nslist': st.sampled_from([False, False, True])}).map(
             lambda d: _norm(d, cl))
 
 
@@ -111,7 +115,8 @@ def _norm(d, cl):
     c.update(ns=d['ns'], args=d['args'], method=d['method'],
              frame=d['frame'], fault=d.get('fault'),
              shared_legacy=d.get('shared_legacy', False),
-             mixed=d.get('mixed'), early=d.get('early'))
+             mixed=d.get('mixed'), early=d.get('early'),
+             nslist=d.get('nslist', False))
     if c['reserved']:
         ev = d['revent']
         if ev == 'connect_error' and not c['cls'].endswith('Client'):
@@ -194,7 +199,9 @@ def _run(case, socketio, cls, aio, server, loop):
 
     if server:
         kw = {'async_mode': 'asgi'} if aio else {'async_mode': 'threading'}
-        obj = getattr(socketio, cls)(namespaces='*', **kw)
+        other_ns = '/other-ns' if ns != '/other-ns' else '/other-ns2'
+        obj = getattr(socketio, cls)(
+            namespaces=[ns, other_ns] if case.get('nslist') else '*', **kw)
         nsbase = socketio.AsyncNamespace if aio else socketio.Namespace
     else:
         obj = getattr(socketio, cls)(handle_sigint=False)
@@ -245,6 +252,12 @@ def _run(case, socketio, cls, aio, server, loop):
 
     def run(x):
         return loop.run(x) if aio else x
+
+    if server and case.get('nslist'):
+        # (registered first, so that nothing of it can shadow a target)
+        obj.on(event, mk('other-ns'), namespace=other_ns)
+        if event != '*':
+            obj.on('*', mk('other-ns'), namespace=other_ns)
 
     reserved = case['reserved']
     early = None
